@@ -335,6 +335,7 @@ func ruleDrainBeforeExit(r *Run, p *Prog, rule, tname string) {
 	if !r.Anchor(f != nil, rule, "(*"+tname+").Next") {
 		return
 	}
+	f = p.View(f, "keep-isDone", func(g *ssa.Function) bool { return canonFn(g) == "isDone" })
 	paths, complete := enumPaths(f, 2, 5000)
 	if !complete {
 		r.Fail(rule, FnName(f)+"/paths", p.Pos(f.Pos()), "cannot enumerate paths")
@@ -369,7 +370,7 @@ func ruleDrainBeforeExit(r *Run, p *Prog, rule, tname string) {
 		}
 		cs := pa.Cmps()
 		failed := tryCall != nil && hasCmp(cs, func(op token.Token, x, y ssa.Value) bool {
-			ex, ok := x.(*ssa.Extract)
+			ex, ok := pa.Resolve(x).(*ssa.Extract)
 			b, isB := constBool(y)
 			return ok && isB && ex.Tuple == ssa.Value(tryCall) && ex.Index == 1 && ((op == token.EQL && !b) || (op == token.NEQ && b))
 		})
@@ -461,6 +462,7 @@ func ruleCloseOrder(r *Run, p *Prog, rule string) {
 		r.Ob(rule, FnName(poll)+"/close-done", p.Pos(poll.Pos()), false, true, "poll never closes done: Close blocks forever")
 	}
 	// poll returns only on a nil from Next()
+	poll = p.View(poll, "", nil)
 	paths, _ := enumPaths(poll, 2, 5000)
 	okRet := true
 	for _, pa := range paths {
